@@ -125,7 +125,7 @@ func Profiles() map[string]*Profile {
 		AuditMode: "visit", MaxStores: 1, AllowMem: true, MemOnlyP: 0.4, MinOps: 6, MaxOps: 30,
 		MaxColls: 1, MaxKeys: 80, CBChoices: []int{0, 0, CBAll}, CustomCmp: true, PrioModes: []int{1, 4},
 		Sizes: []int{1023, 1024, 1025, 2047, 2048, 2049, 3071, 3072, 3073}})
-	add(&Profile{Name: "C17", Weights: mergeW(baseWeights(), map[string]float64{"visit": 3, "iter": 1, "flush": 3, "reopen": 2, "setcoll": 0.4, "rmcoll": 0.2, "invalid": 0.3, "len": 0.3, "copyto": 0.2, "evict": 3}),
+	add(&Profile{Name: "C17", Weights: mergeW(baseWeights(), map[string]float64{"visit": 3, "iter": 1, "flush": 3, "reopen": 2, "revert": 0.8, "snapshot": 0.5, "snapclose": 0.4, "snaprevert": 0.3, "blockvisit": 0.2, "randvisit": 0.2, "setcoll": 0.4, "rmcoll": 0.2, "invalid": 0.3, "len": 0.3, "copyto": 0.2, "evict": 3}),
 		AuditMode: "both", MaxStores: 1, MinOps: 10, MaxOps: 70, LongRunP: 0.02, LongOps: 400,
 		MaxColls: 3, MaxKeys: 24, CBChoices: []int{0}, CustomCmp: true, BigValues: true, CheckDecode: true, CheckStruct: true, PrioModes: []int{0, 1, 2, 4}})
 	add(&Profile{Name: "CON", Weights: baseWeights(), AuditMode: "visit", MaxStores: 1, CheckDecode: true})
